@@ -209,26 +209,6 @@ def roles(name, args, nobj):
     return r
 
 
-def saturates(proj, upto=5):
-    """Does the set of reachable pair states stop growing (a network that does not percolate)?  Only used to
-    label violation keys; the verdicts come from TLC."""
-    J = [(s[0], s[1], tuple(s[2])) for cl in proj for s in cl]
-    reach, shell = set(J), set(J)
-    for _ in range(upto):
-        nxt = set()
-        for (i, j, R) in shell:
-            for (a, b, R2) in J:
-                if a == j:
-                    s = (i, b, tuple(x + y for x, y in zip(R, R2)))
-                    if not (s[0] == s[1] and not any(s[2])) and s not in reach:
-                        nxt.add(s)
-        if not nxt:
-            return True
-        reach |= nxt
-        shell = nxt
-    return False
-
-
 class Recorder:
     """Projects StarSet objects of one world onto integers and collects the TLC case."""
 
@@ -238,7 +218,7 @@ class Recorder:
         self.sets, self.setlist = {}, []
         self.obs, self.obslist = {}, []
         self.descs, self.desclist = {}, []
-        self.edges, self.meta, self.edgesig = [], [], {}
+        self.edges, self.meta, self.edgesig, self.paths = [], [], {}, []
         from onsager import crystalStars as stars
         crys, chem = S["crys"], S["chem"]
         self.probes = []
@@ -299,6 +279,7 @@ class Recorder:
         sig = (meta["action"], tuple(sorted((meta.get("role") or {}).items())), bool(must), bool(raised),
                tuple(slots), tuple(map(tuple, cd)))
         e = self.edgesig.get(sig)
+        self.paths.append((tuple(meta["path"]), e if e is not None else len(self.edges)))
         if e is None:
             self.edgesig[sig] = len(self.edges)
             self.edges.append({"must": bool(must), "raised": bool(raised), "slots": slots, "cands": cd})
@@ -307,11 +288,11 @@ class Recorder:
         else:
             self.meta[e]["count"] += 1
 
-    def case(self, proj_jn):
+    def case(self, proj_jn, deep=False):
         maxn = 0
         for d in self.desclist:
             maxn = max(maxn, d["n"], d["a"][0], d["b"][0])
-        return {"w": self.S["ow"], "c": self.S["chem"] + 1, "jn": proj_jn, "maxn": maxn,
+        return {"w": self.S["ow"], "c": self.S["chem"] + 1, "jn": proj_jn, "maxn": maxn, "deep": bool(deep),
                 "descs": self.desclist, "sets": self.setlist, "obs": self.obslist, "edges": self.edges}
 
 
@@ -339,7 +320,7 @@ def replay_world(task):
     nobj = g["nobj"]
     fam = hs.family(w["name"])
     netkind = "%dshell%s%s" % (opts.get("nshell", 1), "-subset" if opts.get("subset") else "", "-latt" if lattice else "")
-    base = {"world": w["name"], "family": fam, "net": netkind, "chem": chem, "saturating": saturates(proj)}
+    base = {"world": w["name"], "family": fam, "net": netkind, "chem": chem, "saturating": hs.saturates(proj)}
     try:
         # ---- the object machine's graph
         objs0 = [stars.StarSet(jn_in, crys, chem, lattice=lattice) for _ in range(nobj)]
@@ -421,7 +402,7 @@ def replay_world(task):
             ndirect += 1
     except worlds.ProjectionError as ex:
         return {"error": "projection", "what": str(ex), "name": w["name"], "base": base}
-    return {"case": rec.case(proj), "meta": rec.meta, "name": w["name"], "base": base,
+    return {"case": rec.case(proj, opts.get("deep", False)), "meta": rec.meta, "paths": rec.paths, "name": w["name"], "base": base,
             "info": {"distinct_steps": len(rec.edges), "edges": nedges, "followups": nfollow, "direct": ndirect, "unvisited_nodes": missing,
                      "obs": len(rec.obslist), "sets": len(rec.setlist), "wall": round(time.time() - t0, 2),
                      "njumps": sum(len(c) for c in proj), "nsites": nsites, "G": len(crys.G)}}
@@ -529,12 +510,41 @@ def run(ctx):
             nontriv = bool(many) and many[si - 1] > 0
             ctx.case((r["name"], m["action"], tuple(case["edges"][e]["cands"][0]), tuple(case["edges"][e]["slots"])),
                      nontrivial=nontriv)
-        for f in fails.get(ci, []):
+        for f in primary_failures(r, fails.get(ci, [])):
             report(ctx, r, f)
         ctx.sample({"world": r["name"], "net": r["base"]["net"], **info}, cap=8)
     ctx.traces += replayed
     ctx.info("worlds", len(metas))
     ctx.info("steps_replayed", replayed)
+
+
+def fail_edge(case, f):
+    """Index of the (distinct) step a FAIL line belongs to, or None for model clauses."""
+    if f[0] == "model":
+        return None
+    if f[0] == "obs":
+        return next(i for i, ed in enumerate(case["edges"]) if f[1] in ed["slots"])
+    return f[1] - 1
+
+
+def primary_failures(r, fl):
+    """A step replayed from a node whose representative objects were already produced by a failing step fails
+    again for the same reason: keep only failures whose call sequence has no failing proper prefix."""
+    case, meta = r["case"], r["meta"]
+    byedge = {}
+    for f in fl:
+        e = fail_edge(case, f)
+        if e is not None:
+            byedge.setdefault(e, []).append(f)
+    bad = set(p for p, e in r["paths"] if e in byedge)
+    out = [f for f in fl if f[0] == "model"]
+    done = set()
+    for p, e in sorted(r["paths"], key=lambda pe: len(pe[0])):
+        if e in byedge and e not in done and not any(p[:n] in bad for n in range(1, len(p))):
+            done.add(e)
+            meta[e]["path"] = list(p)
+            out += byedge[e]
+    return out
 
 
 def report(ctx, r, f):
@@ -554,7 +564,11 @@ def report(ctx, r, f):
         oi = case["edges"][e]["slots"][slot - 1] if slot else None
     m = meta[e]
     role = (m["role"] or {}).get(slot, "object") if slot else "call"
-    key = "%sedge|%s|%s|%s|%s|%s" % (dimer, clause, m["action"], role, base["family"], base["net"])
+    if clause in ("must_raise", "must_not_raise"):
+        # one key per call and exception, independent of the world (the defect is in the call, not the crystal)
+        key = "%sraise|%s|%s|%s" % (dimer, clause, m["action"].split(">")[-1], m.get("raised"))
+    else:
+        key = "%sedge|%s|%s|%s|%s|%s" % (dimer, clause, m["action"], role, base["family"], base["net"])
     ob = case["obs"][oi - 1] if oi else None
     exp = [case["descs"][d - 1] for d in (case["edges"][e]["cands"][0])]
     what = ("world %s (sublattice %d, network %s, %d jumps): after %s the %s (slot %s) violates '%s'; call raised %s; "
